@@ -17,7 +17,9 @@
         on the other because the reject did not fire).
  C01.h  containment fallback: in the polygon kernel every non-accepting exit is the sound bbox reject or is preceded by a
         point-in-polygon question about a box corner with this element's ring offsets.
-Does not decide: the orientation logic of segments_intersect, the geometric lemma itself, the winding number, exact arithmetic.
+ C01.i  orientation decision table: with the sign function abstracted, segments_intersect combines the four orientation signs as
+        (b0*b1 <= 0) and (a0*a1 <= 0) on all 49 sign combinations with at most one zero (plus the all-collinear case).
+Does not decide: the cross-product arithmetic inside the orientation test, the geometric lemma itself, the winding number, exact arithmetic.
 """
 import ast
 import itertools
@@ -48,6 +50,7 @@ def run(P, R, tier):
     point_like(P, R)
     reject_and_shortcut(P, R)
     fallback(P, R)
+    orientation_table(P, R)
 
 
 # ------------------------------------------------------------------------------------------------------------------ C01.a / C01.c / C01.d
@@ -491,6 +494,65 @@ def reject_and_shortcut(P, R):
                         R.check(not bad, 'C01.f', f, s.test, 'per-segment reject is sound (segment bbox disjoint from the closed box)',
                                 f'per-segment reject `{norm(s.test)}` skips segments whose bbox touches the closed box on {len(bad)} orderings, e.g. {bad[:2]}: '
                                 f'a segment lying on a box edge line is lost', counterexamples=bad[:5])
+
+
+# ------------------------------------------------------------------------------------------------------------------ C01.i
+def orientation_table(P, R):
+    """segments_intersect combines four orientation signs.  With the sign function abstracted (each triangle_orientation call returns a scripted
+    value in {-1, 0, +1}) the remaining decision is a finite table: for non-degenerate segments whose 1-d projections overlap the answer must be
+    (b0 * b1 <= 0) and (a0 * a1 <= 0) on every sign combination with at most one zero, and True when all four are zero (collinear, overlapping)."""
+    f = P.func(IX, 'segments_intersect')
+    tri = P.func('spatialpandas.geometry._algorithms.orientation', 'triangle_orientation')
+    one_d = P.func(IX, 'segments_intersect_1d')
+    p = f.params
+    combos = []
+    for t in itertools.product((-1, 0, 1), repeat=4):
+        z = sum(1 for v in t if v == 0)
+        if z <= 1 or z == 4:
+            combos.append(t)
+    bad = []
+    names = {}
+    for t in combos:
+        # b0, b1 are orientations of b's end points against line a; a0, a1 of a's end points against line b
+        script = {'b0': t[0], 'b1': t[1], 'a0': t[2], 'a1': t[3]}
+        env = {p[0]: Sym(0, 'ax0', 'X'), p[1]: Sym(0, 'ay0', 'Y'), p[2]: Sym(3, 'ax1', 'X'), p[3]: Sym(3, 'ay1', 'Y'),
+               p[4]: Sym(1, 'bx0', 'X'), p[5]: Sym(2, 'by0', 'Y'), p[6]: Sym(2, 'bx1', 'X'), p[7]: Sym(1, 'by1', 'Y')}
+
+        def call(I, e, script=script):
+            r = P.resolve_expr_static(f.mod, e.func)
+            if r and r[0] == 'func' and r[1] is one_d:
+                return True
+            if r and r[0] == 'func' and r[1] is tri:
+                a = [norm(x) for x in e.args]
+                line_is_a = a[0] == p[0] and a[2] == p[2]
+                pt = a[4]
+                if line_is_a:
+                    return script['b0'] if pt == p[4] else script['b1']
+                return script['a0'] if pt == p[0] else script['a1']
+            return None
+        try:
+            I, ctl = ordeval.run_fragment(f.body, env, {'call': call})
+        except (ordeval.NotComparisonOnly, ordeval.AxisMismatch) as e:
+            R.abstain('C01.i', f, None, f'segments_intersect could not be evaluated with abstracted orientations: {e}')
+            return
+        got = ctl.val if ctl is not None and ctl.kind == 'return' else None
+        want = True if all(v == 0 for v in t) else (t[0] * t[1] <= 0 and t[2] * t[3] <= 0)
+        if got is not want and got != want:
+            bad.append({'(b0,b1,a0,a1)': t, 'returned': got, 'expected': want})
+    R.count('orderings', len(combos))
+    R.exhaustive_sites['C01.i orientation decision table (49 sign combinations)'] = True
+    R.check(not bad, 'C01.i', f, None, f'segments_intersect combines the four orientation signs as (b0*b1 <= 0) and (a0*a1 <= 0) on all {len(combos)} sign combinations',
+            f'segments_intersect decides {len(bad)} sign combinations wrongly, e.g. {bad[:3]}', construct='orientation decision table', counterexamples=bad[:6])
+    # zero-length segments: a degenerate segment meets the other only at one of its end points (comparison-only part)
+    # the sign function itself: > 0 -> +1, < 0 -> -1, else 0
+    rets = {}
+    for s in ast.walk(tri.node):
+        if isinstance(s, ast.If):
+            for l_, op, r_ in astq.cmp_forms(s.test):
+                if norm(r_) == '0' and isinstance(s.body[0], ast.Return):
+                    rets[op] = norm(s.body[0].value)
+    ok = rets.get(ast.Gt) == '1' and rets.get(ast.Lt) == '-1'
+    R.check(ok, 'C01.i', tri, None, 'triangle_orientation maps a positive cross product to +1 and a negative one to -1', f'triangle_orientation sign mapping is {rets}', construct='orientation sign mapping')
 
 
 # ------------------------------------------------------------------------------------------------------------------ C01.h
